@@ -54,6 +54,10 @@ func init() {
 		}
 		add(map[string]interface{}{"nd": 1, "in": []int{3}, "k": []int{1}, "N": 2, "M": 2, "bias": true})
 		add(map[string]interface{}{"in": []int{2, 3}, "k": []int{1, 1}, "N": 2, "M": 2, "bias": true, "strides": []int{1, 2}})
+		// as many kernels as output positions per kernel (the bias must still go per kernel, not per position)
+		add(map[string]interface{}{"in": []int{3, 3}, "k": []int{2, 2}, "M": 4, "bias": true})
+		add(map[string]interface{}{"in": []int{2, 3}, "k": []int{2, 2}, "M": 2, "N": 2, "bias": true})
+		add(map[string]interface{}{"nd": 1, "in": []int{4}, "k": []int{2}, "M": 3, "bias": true})
 		// refused configurations
 		add(map[string]interface{}{"in": []int{3, 3}, "k": []int{2, 2}, "group": 2, "C": 2, "M": 2})
 		add(map[string]interface{}{"in": []int{3, 3}, "k": []int{2, 2}, "group": 1})
